@@ -39,12 +39,14 @@ struct Synth {
     Osc voices[12]; bool Pvoices;              // rRecurs (two-digit indices)
     bool Pfx; Fx *fx;                          // rRecurp: the object exists only while Pfx is true
     int mode; int depth;                       // depth declares rDepends(mode)
+    bool osc2_on; Osc *osc2;                   // toggle named like its sub-tree, default depends on the preset, object exists only while on
     bool Pbank; Bank *bank;                    // rRecurp over rRecurs: "/bank/slots1/kind" depends on "/Pbank" two levels up
-    Synth() : preset(0), gain(30), cutoff(0.5f), Poscenabled(false), Pvoices(true), Pfx(false), fx(nullptr), mode(0), depth(7), Pbank(false), bank(nullptr) { apply_preset(); }
-    ~Synth() { delete fx; delete bank; }
+    Synth() : preset(0), gain(30), cutoff(0.5f), Poscenabled(false), Pvoices(true), Pfx(false), fx(nullptr), mode(0), depth(7), osc2_on(false), osc2(nullptr), Pbank(false), bank(nullptr) { apply_preset(); }
+    ~Synth() { delete fx; delete bank; delete osc2; }
+    void set_osc2(bool on) { if (on && !osc2) osc2 = new Osc; if (!on && osc2) { delete osc2; osc2 = nullptr; } osc2_on = on; }
     Synth(const Synth &) = delete;
     void apply_preset() { static const int g[3] = {30, 127, 64}; static const float c[3] = {0.5f, 0.9f, 0.125f}; static const int e[3][3] = {{0, 0, 0}, {10, 20, 30}, {5, 5, 5}};
-        int p = preset < 0 ? 0 : preset > 2 ? 2 : preset; gain = g[p]; cutoff = c[p]; memcpy(env, e[p], sizeof env); }
+        int p = preset < 0 ? 0 : preset > 2 ? 2 : preset; gain = g[p]; cutoff = c[p]; memcpy(env, e[p], sizeof env); set_osc2(p == 1); }
     static const rtosc::Ports ports;
 };
 
@@ -52,15 +54,16 @@ struct Synth {
 // ------------------------------------------------------------------ application 3: a zoo of dependencies under an enumerated sub-tree
 // Every provider's callback resets its dependants to their defaults, so that applying a provider after a dependant is observable.
 struct Unit {
-    int bank, kind, gain, width, mix; bool enabled; int unison, type, detune; int lfo_shape, lfo_rate, lfo_depth;
+    int bank, kind, gain, width, mix; bool enabled; int unison, type, detune; int lfo_shape, lfo_rate, lfo_depth; int s, attack;
     static int kind_default(int bank) { static const int t[3] = {1, 2, 3}; return t[bank < 0 ? 0 : bank > 2 ? 2 : bank]; }
     static int mix_default(int kind) { static const int t[4] = {10, 20, 30, 40}; return t[kind < 0 ? 0 : kind > 3 ? 3 : kind]; }
+    static int attack_default(int s) { static const int t[3] = {10, 33, 44}; return t[s < 0 ? 0 : s > 2 ? 2 : s]; }
     static int detune_default(int type) { static const int t[3] = {0, 7, 12}; return t[type < 0 ? 0 : type > 2 ? 2 : type]; }
     void reset_lfo() { lfo_rate = 5; lfo_depth = 6; }
     void set_bank(int v) { bank = v < 0 ? 0 : v > 2 ? 2 : v; set_kind(kind_default(bank)); lfo_shape = 0; reset_lfo(); }
     void set_kind(int v) { kind = v < 0 ? 0 : v > 3 ? 3 : v; mix = mix_default(kind); }
     void set_enabled(bool e) { enabled = e; unison = 1; detune = detune_default(type); }
-    Unit() : bank(0), gain(50), width(50), enabled(false), unison(1), type(0), lfo_shape(0) { set_bank(0); detune = detune_default(0); }
+    Unit() : bank(0), gain(50), width(50), enabled(false), unison(1), type(0), lfo_shape(0), s(0), attack(10) { set_bank(0); detune = detune_default(0); }
     static const rtosc::Ports ports;
 };
 struct Deps { Unit units[2]; int master; Deps() : master(100) {} static const rtosc::Ports ports; };
@@ -125,6 +128,9 @@ inline const rtosc::Ports Synth::ports = {
     {"mode::i", rProp(parameter) rMap(min, 0) rMap(max, 3) rDefault(0) rDoc("mode: changing it resets depth"), NULL,
         [](const char *m, rtosc::RtData &d) { Synth *o = (Synth *)d.obj; if (*rtosc_argument_string(m)) { int v = rtosc_argument(m, 0).i; if (v < 0) v = 0; if (v > 3) v = 3; if (v != o->mode) { o->mode = v; o->depth = 7; } d.broadcast(d.loc, "i", o->mode); } else d.reply(d.loc, "i", o->mode); }},
     rParamI(depth, rLinear(0, 20), rDepends(mode), rDefault(7), "depth (reset by mode)"),
+    {"osc2_on::T:F", rProp(parameter) rDefaultDepends(preset) rPreset(0, false) rPreset(1, true) rPreset(2, false) rDoc("second oscillator switch: preset dependent default; creates / destroys the object"), NULL,
+        [](const char *m, rtosc::RtData &d) { Synth *o = (Synth *)d.obj; const char *a = rtosc_argument_string(m); if (*a) { o->set_osc2(*a == 'T'); d.broadcast(d.loc, o->osc2_on ? "T" : "F"); } else d.reply(d.loc, o->osc2_on ? "T" : "F"); }},
+    rRecurp(osc2, rEnabledBy(osc2_on), "second oscillator, exists only while osc2_on"),
     {"Pbank::T:F", rProp(parameter) rDefault(false) rDoc("creates / destroys the bank object"), NULL,
         [](const char *m, rtosc::RtData &d) { Synth *o = (Synth *)d.obj; const char *a = rtosc_argument_string(m); if (*a) { bool on = *a == 'T'; if (on && !o->bank) o->bank = new Bank; if (!on && o->bank) { delete o->bank; o->bank = nullptr; } o->Pbank = on; d.broadcast(d.loc, on ? "T" : "F"); } else d.reply(d.loc, o->Pbank ? "T" : "F"); }},
     rRecurp(bank, rEnabledBy(Pbank), "bank of effect slots, exists only while Pbank"),
@@ -136,6 +142,8 @@ inline const rtosc::Ports Synth::ports = {
 #define UINT(field, onset) UCB(if (set) { onset; d.broadcast(d.loc, "i", o->field); } else d.reply(d.loc, "i", o->field);)
 inline const rtosc::Ports Unit::ports = {
     // dependants are declared (and therefore saved) BEFORE the ports they depend on: loading must reorder
+    {"attack::i", rProp(parameter) rMap(min, 0) rMap(max, 100) rDefaultDepends(s) rPresets(10, 33, 44) rDoc("attack: default depends on a port with a one-letter name"), NULL, UINT(attack, o->attack = v < 0 ? 0 : v > 100 ? 100 : v)},
+    {"s::i", rProp(parameter) rMap(min, 0) rMap(max, 2) rDefault(0) rDoc("one-letter selector: resets attack"), NULL, UINT(s, o->s = v < 0 ? 0 : v > 2 ? 2 : v; o->attack = Unit::attack_default(o->s))},
     {"mix::i", rProp(parameter) rMap(min, 0) rMap(max, 100) rDepends(gain, width) rDefaultDepends(kind) rPresets(10, 20, 30, 40) rDoc("mix: declared dependencies and a preset dependent default"), NULL, UINT(mix, o->mix = v < 0 ? 0 : v > 100 ? 100 : v)},
     {"detune::i", rProp(parameter) rMap(min, 0) rMap(max, 24) rDefaultDepends(type) rDepends(type, unison) rPresets(0, 7, 12) rDoc("detune: reaches 'type' twice and depends on unison"), NULL, UINT(detune, o->detune = v < 0 ? 0 : v > 24 ? 24 : v)},
     {"lfo_rate::i", rProp(parameter) rMap(min, 0) rMap(max, 20) rDepends(lfo_shape) rDefault(5) rDoc("lfo rate"), NULL, UINT(lfo_rate, o->lfo_rate = v < 0 ? 0 : v > 20 ? 20 : v)},
@@ -218,6 +226,8 @@ inline const std::vector<Param> &synth_params() {
     P.push_back({"/fx/kind", 1, 'i', [](void *o, int) { return vi(S(o)->fx ? S(o)->fx->kind : 1); }, [](void *, int) { return vi(1); }, fxr, 0, 9, 0, {}});
     P.push_back({"/fx/mix", 1, 'f', [](void *o, int) { return vf(S(o)->fx ? S(o)->fx->mix : 0.25f); }, [](void *, int) { return vf(0.25f); }, fxr, 0, 1, 0, {}});
     P.push_back({"/fx/taps", 3, 'i', [](void *o, int k) { return vi(S(o)->fx ? S(o)->fx->taps[k] : k + 1); }, [](void *, int k) { return vi(k + 1); }, fxr, 0, 100, 0, {}});
+    P.push_back({"/osc2_on", 1, 'T', [](void *o, int) { return vb(S(o)->osc2_on); }, [](void *o, int) { return vb(S(o)->preset == 1); }, yes, 0, 1, 0, {}});
+    osc_params(P, "/osc2/", [](void *o) { static Osc dflt; return S(o)->osc2 ? S(o)->osc2 : &dflt; }, [](void *o) { return S(o)->osc2_on && S(o)->osc2; });
     P.push_back({"/Pbank", 1, 'T', [](void *o, int) { return vb(S(o)->Pbank); }, [](void *, int) { return vb(false); }, yes, 0, 1, 0, {}});
     { auto br = [](void *o) { return S(o)->Pbank && S(o)->bank; };
       for (int q = 0; q < 2; q++) { std::string pre = "/bank/slots" + std::to_string(q) + "/";
@@ -247,7 +257,9 @@ inline const std::vector<Param> &deps_params() {
         ip("detune", [](Unit *x) { return x->detune; }, [](Unit *x) { return Unit::detune_default(x->type); }, 0, 24);
         ip("lfo_shape", [](Unit *x) { return x->lfo_shape; }, [](Unit *) { return 0; }, 0, 3);
         ip("lfo_rate", [](Unit *x) { return x->lfo_rate; }, [](Unit *) { return 5; }, 0, 20);
-        ip("lfo_depth", [](Unit *x) { return x->lfo_depth; }, [](Unit *) { return 6; }, 0, 20); }
+        ip("lfo_depth", [](Unit *x) { return x->lfo_depth; }, [](Unit *) { return 6; }, 0, 20);
+        ip("s", [](Unit *x) { return x->s; }, [](Unit *) { return 0; }, 0, 2);
+        ip("attack", [](Unit *x) { return x->attack; }, [](Unit *x) { return Unit::attack_default(x->s); }, 0, 100); }
     P.push_back({"/master", 1, 'i', [](void *o, int) { return vi(((Deps *)o)->master); }, [](void *, int) { return vi(100); }, yes, 0, 200, 0, {}});
 #undef U
     return P;
